@@ -161,7 +161,12 @@ pub const VOCAB: [&str; 86] = [
     "r#type", "r#match", "custom_joiner", "lazy_branches", "transpose_results", "futures_crate_path",
 ];
 
-fn soup() -> impl Strategy<Value = Vec<String>> {
+/// a token soup as text
+pub fn soup() -> impl Strategy<Value = String> {
+    soup_tokens().prop_map(|v| v.join(" "))
+}
+
+pub fn soup_tokens() -> impl Strategy<Value = Vec<String>> {
     let leaf = proptest::sample::select(VOCAB.to_vec()).prop_map(|s| vec![s.to_string()]);
     let tok = leaf.prop_recursive(3, 24, 6, |inner| {
         (proptest::collection::vec(inner, 0..6), 0u8..3).prop_map(|(v, d)| {
@@ -485,7 +490,7 @@ pub fn run(tier: &str, seed: u64) -> i32 {
     if violation.is_none() {
         *stop.borrow_mut() = false;
         let mut runner = crate::new_runner(seed, 0x15a, n_soup);
-        let r = runner.run(&(soup(), 0usize..8), |(toks, ci)| {
+        let r = runner.run(&(soup_tokens(), 0usize..8), |(toks, ci)| {
             let text = toks.join(" ");
             judge(&text, ci, false, &tally, &stop).map_err(|d| {
                 *stop.borrow_mut() = true;
